@@ -1,6 +1,8 @@
 BASE = ("Trusted: the Go toolchain, encoding/json decoding == gin binding (cross-checked: the same corpora also run over HTTP), and the harness's own "
         "reference models / oracles (validated by agreement with the repaired tree at several seeds and by the seeded-change pass in DESIGN.md section 11). "
-        "Held on the executions produced, not proved; counts of what was observed are in the evidence file.")
+        "Held on the executions produced, not proved; counts of what was observed are in the evidence file. Streams named *-service run the same generator and oracle through "
+        "decideHandler of main.go in-process, each case after a short history of other requests; every in-process decision runs under a deadlock detector (parked in the "
+        "library for minutes with nothing of it running ends the worker, the case is re-run alone).")
 DEC = " The decorators read unexported parameter structs through reflect+unsafe; a layout change makes cases inconclusive, never violations."
 chk("C01", "runtime monitor: well-formedness oracle over generated executions + exhaustive enumeration of tournament shapes",
     "Every accepted response of the workload passes an executable well-formedness oracle (entry set = choseToMake + current choice, no self / duplicate / dangling links). "
@@ -33,7 +35,9 @@ chk("C09", "runtime monitor: deep snapshots of inputs / reports / handed-on stat
     "The decoded request is compared before/after; every bias report and state snapshot taken at return is re-taken from the live objects at the end of the decision; earlier results are re-marshalled after later calls; the probe response is compared after histories of 2..50 requests.",
     BASE + DEC, "DESIGN.md 4/C09")
 chk("C10", "Go race detector on the real service under concurrent clients + byte comparison with the sequential baseline; race-instrumented in-process run with injected yields",
-    "The -race build of the service answers a corpus sequentially (baseline) and then concurrently (2..64 clients, GOMAXPROCS 1/4/16, identical requests in flight together); responses must equal the baseline, the process must live, the race log must be empty. Overlap counts are measured from call/return timestamps.",
+    "The -race build of the service answers a corpus sequentially (baseline) and then concurrently (2..64 clients, GOMAXPROCS 1/4/16, identical requests in flight together); responses must equal the baseline, the process must live, the race log must be empty. Overlap counts are measured from call/return timestamps. "
+    "Fresh-process bursts (24 goroutines on one method incl. every rejection path twice side by side; 16 goroutines on large problems: ELECTRE with 64+ alternatives in replicated kinds, 64..160 alternatives, "
+    "13-criteria Choquet, large refused requests) run in the race-instrumented harness; a burst or request that never returns is decided from the runtime's goroutine states.",
     BASE + " Interleavings are sampled, not enumerated.", "DESIGN.md 4/C10")
 chk("C11", "runtime monitor: reference tournament (exact) + existence search over admissible search orders / draw resolutions; exhaustive tournament shapes",
     "The sequential pairwise tournament is replayed on the data Evaluate received: exact equality for fixed order and deterministic policies, existence of an order (current choice first) and draw resolution reproducing the response otherwise; all one-criterion outcome sequences for n<=7 enumerated.",
@@ -63,5 +67,6 @@ chk("C19", "runtime monitor: anchoring oracle on decorator snapshots (reference 
     "Every quantity of the anchoring report is recomputed from the statement and the snapshot entering the bias; inline: exact values and new - old; newCriterion: convex-combination bound, type, parameters.",
     BASE + DEC, "DESIGN.md 4/C19")
 chk("C20", "child-process supervision of the real service under a hostile corpus (status / shape oracle per request class, liveness via waitpid + schema endpoint, CPU-time criterion)",
-    "Valid, constraint-catalogue, malformed, mutated, extreme and raw-TCP-fault requests, shuffled, against one process per batch; every answer is classified against its class; the child must stay alive and keep serving the schema endpoint.",
+    "Valid, constraint-catalogue, malformed, mutated, extreme and raw-TCP-fault requests, shuffled, against one process per batch; every answer is classified against its class; the child must stay alive and keep serving the schema endpoint; "
+    "a request left without an answer by a live, idle process is decided from the goroutine dump the runtime prints on SIGQUIT (handler parked, nothing of the service running).",
     BASE + " Level coefficients between 1e-16 and 1e-3 are not sent (finite but astronomically long series: the verdict would depend on a time budget).", "DESIGN.md 4/C20")
